@@ -57,6 +57,12 @@ static std::string result_to_text(const RunResult& r)
     for (auto& v : r.violations) o << "viol\t" << v.prop << "\t" << one_line(v.cls) << "\t" << one_line(v.detail) << "\n";
     for (auto& kv : r.counters) o << "cnt\t" << kv.first << "\t" << kv.second << "\n";
     for (auto& l : r.transcript_tail) o << "tail\t" << one_line(l) << "\n";
+    if (!r.sched_rec.empty())
+    {
+        o << "schd\t";
+        for (size_t i = 0; i < r.sched_rec.size(); ++i) o << (i ? " " : "") << r.sched_rec[i].first << ":" << r.sched_rec[i].second;
+        o << "\n";
+    }
     o << "end\n";
     return o.str();
 }
@@ -97,6 +103,16 @@ static bool result_from_lines(const std::vector<std::string>& lines, size_t& i, 
         else if (f[0] == "viol" && f.size() >= 4) r.violations.push_back(Violation{f[1], f[2], f[3]});
         else if (f[0] == "cnt" && f.size() >= 3) r.counters[f[1]] = atoll(f[2].c_str());
         else if (f[0] == "tail" && f.size() >= 2) r.transcript_tail.push_back(f[1]);
+        else if (f[0] == "schd" && f.size() >= 2)
+        {
+            std::istringstream ss(f[1]);
+            std::string item;
+            while (ss >> item)
+            {
+                size_t c = item.find(':');
+                if (c != std::string::npos) r.sched_rec.push_back({atoi(item.substr(0, c).c_str()), atoll(item.substr(c + 1).c_str())});
+            }
+        }
         else if (f[0] == "end") { ++i; return got; }
         else if (f[0] == "START" || f[0] == "RUN") return got;
     }
@@ -411,6 +427,46 @@ struct Shrinker
                 t.ops[i].line = nl;
                 if (fails(t)) s = t;
                 else break;
+            }
+        }
+        // 7. make the schedule explicit and cut it down: record the decisions of the minimal script, keep the shortest
+        //    prefix after which plain round-robin still reproduces the violation, merge runs of the same task
+        if (!crash_mode && runs < budget)
+        {
+            Script rec = s;
+            rec.record_sched = true;
+            runs++;
+            ChildOutcome o = run_in_child(rec);
+            if (o.ok && has_class(o.res, prop, cls) && !o.res.sched_rec.empty() && o.res.sched_rec.size() <= 20000)
+            {
+                std::vector<std::pair<int, int64_t>> full = o.res.sched_rec, merged;
+                for (auto& d : full)
+                {
+                    if (!merged.empty() && merged.back().first == d.first) merged.back().second += d.second;
+                    else merged.push_back(d);
+                }
+                Script base = s;
+                base.cfg.sched_override = POL_ROUND_ROBIN;
+                auto with_prefix = [&](const std::vector<std::pair<int, int64_t>>& v, size_t k) {
+                    Script t = base;
+                    t.sched.assign(v.begin(), v.begin() + long(k));
+                    return t;
+                };
+                const std::vector<std::pair<int, int64_t>>* use = nullptr;
+                if (fails(with_prefix(merged, merged.size()))) use = &merged;
+                else if (fails(with_prefix(full, full.size()))) use = &full;
+                if (use)
+                {
+                    size_t lo = 0, hi = use->size();  // smallest failing prefix length in [lo, hi]
+                    while (lo < hi && runs < budget)
+                    {
+                        size_t mid = (lo + hi) / 2;
+                        if (fails(with_prefix(*use, mid))) hi = mid;
+                        else lo = mid + 1;
+                    }
+                    Script t = with_prefix(*use, hi);
+                    if (fails(t)) s = t;
+                }
             }
         }
         return s;
